@@ -66,6 +66,11 @@ def run_prop(run, scr, tier, seed, prop, e1=None, diff=(), diff_load=(2, 8), ext
     # confirmation of mismatches: first at kernel level (scalar counterexamples of closure lemmas), then against the reference implementation
     if mism:
         confirmed = []
+        if any('c08_' in str(m.get('name', '')) for m in mism):
+            from props import c08
+            res8, msgs8 = c08.native(scr)
+            if 'fail' in res8.values():
+                confirmed.append(('codec', msgs8[:3]))
         cases = [c for c in getattr(suite, 'scalar_cases', [])]
         if cases:
             from e2run import run_scalar_cases
@@ -86,7 +91,8 @@ def run_prop(run, scr, tier, seed, prop, e1=None, diff=(), diff_load=(2, 8), ext
             if oc == 'fail':
                 confirmed.append((what, msgs))
         path = vlib.save_replay(prop, 'skeleton', {'property': prop, 'kind': 'diff', 'diff': list(diff), 'load': [diff_load[0], max(diff_load[1], 300) if 'sign' in diff else diff_load[1]], 'seed': seed + 1,
-                                                   'mismatches': [{'name': m['name'], 'detail': m['detail']} for m in mism], 'confirmed': [(w, m[:4]) for w, m in confirmed]})
+                                                   'mismatches': [{'name': m['name'], 'detail': m['detail']} for m in mism], 'confirmed': [(w, m[:4]) for w, m in confirmed],
+                                                   'scalar_cases': [[n, list(a)] for n, a, _ in getattr(suite, 'scalar_cases', [])], 'codec': any(w == 'codec' for w, _ in confirmed)})
         if confirmed:
             run.violation('skeleton-' + mism[0]['name'][:60], f'{mism[0]["name"]}: {mism[0]["detail"][:300]} ; confirmed natively: {confirmed[0][0]}: {confirmed[0][1][:2]}', path)
         else:
@@ -98,6 +104,19 @@ def run_prop(run, scr, tier, seed, prop, e1=None, diff=(), diff_load=(2, 8), ext
 def replay_diff(prop, scr, path):
     p = json.load(open(path))
     bad = False
+    if p.get('scalar_cases'):
+        from e2run import run_scalar_cases
+        for rel in (False, True):
+            nat, oc, out = run_scalar_cases(scr, [(n, a) for n, a in p['scalar_cases']], release=rel)
+            vlib.log(f'replay scalar cases ({"release" if rel else "dev"}): {nat}')
+            if any(not v[1] for v in nat.values()):
+                bad = True
+    if p.get('codec'):
+        from props import c08
+        res8, msgs8 = c08.native(scr)
+        vlib.log(f'replay codec differential: {res8} {msgs8[:3]}')
+        if 'fail' in res8.values():
+            bad = True
     for what in p['diff']:
         oc, msgs = diffnative.run(scr, what, seed=p.get('seed', 1), n_seeds=p['load'][0], n_msgs=p['load'][1])
         vlib.log(f'replay diff {what}: {oc} {msgs[:3]}')
